@@ -1,1 +1,225 @@
-(* placeholder: additions engine (C30), under construction *)
+(* C30 — module-level additions appear exactly as requested.  Statements only.
+   "Globals, data segments, memories and exports added through the module API appear in the encoded module with
+   exactly the requested types, limits, contents and initial values (bit-exact constants), replacing a global's
+   initialiser changes only that initialiser, and the returned IDs designate the added items." *)
+From Coq Require Import List Arith NArith ZArith Bool.
+Import ListNotations.
+From Orca Require Import Util Wrap Reindex CheckReidx Additions CheckAdds AddsProofs.
+Local Open Scope N_scope.
+
+(* ---- initial values are bit-exact: the model of InitExpr::to_wasmencoder_type, read back ---- *)
+(* every InitInstr form (i32 / i64 / f32 / f64 / v128 constants as bit patterns, global.get, ref.func, ref.null)
+   decodes back to the request, for every in-range immediate; hence the encoding is injective *)
+Theorem C30_init_decodes_to_request :
+  forall i : iinstr, wf_instr i = true -> dec_cop (enc_instr i) = Some i.
+Proof. exact enc_instr_decodes. Qed.
+Print Assumptions C30_init_decodes_to_request.
+
+Theorem C30_init_encoding_injective :
+  forall e e' : init, forallb wf_instr e = true -> forallb wf_instr e' = true -> enc_init e = enc_init e' -> e = e'.
+Proof. exact enc_init_injective. Qed.
+Print Assumptions C30_init_encoding_injective.
+
+(* the `u128 as i128` step of a v128 constant keeps all 128 bits *)
+Theorem C30_v128_bits_exact :
+  forall u : Z, in_u128 u = true ->
+    enc_value (VV128 u) = CV128 (as_i128 u) /\ in_i128 (as_i128 u) = true /\ to_u128 (as_i128 u) = u.
+Proof. exact v128_bits_exact. Qed.
+Print Assumptions C30_v128_bits_exact.
+
+(* the emitted constant satisfies the checker's independent reading of "bit-exact" for every value,
+   NaN payloads (quiet and signalling), signed zeros and infinities included: they are bit patterns *)
+Theorem C30_constants_meet_spec :
+  forall (o : aobs) (h : sstate) (v : value), wf_value v = true -> obs_rop o (enc_value v) = exp_rop h (IVal v).
+Proof. exact enc_value_meets_spec. Qed.
+Print Assumptions C30_constants_meet_spec.
+
+(* ---- additions only append; returned ids are positions ---- *)
+Theorem C30_add_global_appends :
+  forall s fp t e s1 r, astep s (OAddGlobal fp t e) = Ok (s1, r) ->
+  exists t', gty_conv t = Ok t'
+  /\ s_items (m_g (a_m s1)) = s_items (m_g (a_m s)) ++ [mkItem (lenN (s_items (m_g (a_m s)))) None false fp]
+  /\ r = Some (lenN (s_items (m_g (a_m s))))
+  /\ plookup (a_gpay s1) fp = Some (mkGP t' (Some e))
+  /\ m_f (a_m s1) = m_f (a_m s) /\ m_m (a_m s1) = m_m (a_m s) /\ m_imports (a_m s1) = m_imports (a_m s)
+  /\ a_mpay s1 = a_mpay s /\ a_data s1 = a_data s /\ a_exports s1 = a_exports s.
+Proof. exact add_global_appends. Qed.
+Print Assumptions C30_add_global_appends.
+
+Theorem C30_add_memory_appends :
+  forall s fp t s1 r, astep s (OAddMem fp t) = Ok (s1, r) ->
+  s_items (m_m (a_m s1)) = s_items (m_m (a_m s)) ++ [mkItem (lenN (s_items (m_m (a_m s)))) None false fp]
+  /\ r = Some (lenN (s_items (m_m (a_m s))))
+  /\ plookup (a_mpay s1) fp = Some t
+  /\ m_f (a_m s1) = m_f (a_m s) /\ m_g (a_m s1) = m_g (a_m s) /\ m_imports (a_m s1) = m_imports (a_m s)
+  /\ a_gpay s1 = a_gpay s /\ a_data s1 = a_data s /\ a_exports s1 = a_exports s.
+Proof. exact add_memory_appends. Qed.
+Print Assumptions C30_add_memory_appends.
+
+Theorem C30_add_data_appends :
+  forall s d s1 r, astep s (OAddData d) = Ok (s1, r) ->
+  a_data s1 = a_data s ++ [d] /\ r = Some (lenN (a_data s))
+  /\ a_m s1 = a_m s /\ a_gpay s1 = a_gpay s /\ a_mpay s1 = a_mpay s /\ a_exports s1 = a_exports s.
+Proof. exact add_data_appends. Qed.
+Print Assumptions C30_add_data_appends.
+
+Theorem C30_add_export_appends :
+  forall s k n id s1 r, astep s (OAddExport k n id) = Ok (s1, r) ->
+  a_exports s1 = a_exports s ++ [mkEx n k id false]
+  /\ a_m s1 = a_m s /\ a_gpay s1 = a_gpay s /\ a_mpay s1 = a_mpay s /\ a_data s1 = a_data s.
+Proof. exact add_export_appends. Qed.
+Print Assumptions C30_add_export_appends.
+
+(* over whole histories of any length and any mix of the eleven operations: the data list, the export list and
+   the three entity vectors are the old ones followed by exactly what the history added, in order *)
+Theorem C30_histories_only_append :
+  forall h s rets s' rets', arun s h rets = (s', rets', false) ->
+  a_data s' = a_data s ++ flat_map data_of h
+  /\ map ex_core (a_exports s') = map ex_core (a_exports s) ++ flat_map exports_of h
+  /\ (forall x, fps s' x = fps s x ++ flat_map (fun o => new_fps o x) h).
+Proof. exact arun_appends. Qed.
+Print Assumptions C30_histories_only_append.
+
+(* ---- replacing an initialiser changes exactly that initialiser ---- *)
+Theorem C30_mod_init_changes_only_that_global :
+  forall s g e s1 r, astep s (OModInit g e) = Ok (s1, r) ->
+  exists it p,
+    nthN (s_items (m_g (a_m s))) g = Some it /\ is_local it = true
+    /\ plookup (a_gpay s) (it_fp it) = Some p
+    /\ plookup (a_gpay s1) (it_fp it) = Some (mkGP (gp_ty p) (Some e))
+    /\ (forall fp, fp <> it_fp it -> plookup (a_gpay s1) fp = plookup (a_gpay s) fp)
+    /\ a_m s1 = a_m s /\ a_mpay s1 = a_mpay s /\ a_data s1 = a_data s /\ a_exports s1 = a_exports s /\ r = None.
+Proof. exact mod_init_changes_only_that_global. Qed.
+Print Assumptions C30_mod_init_changes_only_that_global.
+
+Theorem C30_mod_init_emission :
+  forall s g e s1 r dc sites, astep s (OModInit g e) = Ok (s1, r) ->
+  exists fp, (exists it, nthN (s_items (m_g (a_m s))) g = Some it /\ it_fp it = fp) /\
+  forall mf mg,
+    (forall it', it_fp it' <> fp -> emit_global (a_gpay s1) mf mg it' = emit_global (a_gpay s) mf mg it')
+    /\ (forall i, i_fp i <> fp \/ i_sp i <> 1 -> emit_imp s1 i = emit_imp s i)
+    /\ (forall o o', aencode s dc sites = Ok o -> aencode s1 dc sites = Ok o' ->
+          ob_funcs o' = ob_funcs o /\ ob_mems o' = ob_mems o /\ ob_data o' = ob_data o
+          /\ ob_exports o' = ob_exports o /\ ob_sites o' = ob_sites o /\ ob_dcount o' = ob_dcount o
+          /\ length (ob_globals o') = length (ob_globals o)).
+Proof. exact mod_init_emission. Qed.
+Print Assumptions C30_mod_init_emission.
+
+(* ---- the sections of the output are the stored requests ---- *)
+Theorem C30_data_section_exact :
+  forall s dc sites o, aencode s dc sites = Ok o ->
+  length (ob_data o) = length (a_data s)
+  /\ forall k d, nthN (a_data s) k = Some d ->
+       exists od, nthN (ob_data o) k = Some od /\ odseg_bytes od = dseg_bytes d /\ odseg_passive od = dseg_passive d.
+Proof. exact data_section_exact. Qed.
+Print Assumptions C30_data_section_exact.
+
+Theorem C30_export_section_exact :
+  forall s dc sites o, aencode s dc sites = Ok o ->
+  map (fun t => (fst (fst t), snd (fst t))) (ob_exports o)
+  = map (fun e => (ex_name e, ex_kind e)) (filter (fun e => negb (ex_del e)) (a_exports s)).
+Proof. exact export_section_exact. Qed.
+Print Assumptions C30_export_section_exact.
+
+Theorem C30_global_section_exact :
+  forall s dc sites o, aencode s dc sites = Ok o ->
+  exists lg mf mg, (exists l, index_space (m_f (a_m s)) = Ok (l, mf)) /\ index_space (m_g (a_m s)) = Ok (lg, mg) /\
+  let live := filter (fun i => is_local i && negb (it_del i)) lg in
+  length (ob_globals o) = length live /\
+  forall k it, nth_error live k = Some it ->
+    exists t e e', plookup (a_gpay s) (it_fp it) = Some (mkGP t (Some e)) /\ fix_init mf mg e = Ok e'
+                   /\ nth_error (ob_globals o) k = Some (mkOG t (enc_init e')).
+Proof. exact global_section_exact. Qed.
+Print Assumptions C30_global_section_exact.
+
+Theorem C30_memory_section_exact :
+  forall s dc sites o, aencode s dc sites = Ok o ->
+  exists lm mm, index_space (m_m (a_m s)) = Ok (lm, mm) /\
+  length (ob_mems o) = length (filter is_local lm) /\
+  forall k it, nth_error (filter is_local lm) k = Some it ->
+    exists t, plookup (a_mpay s) (it_fp it) = Some t /\ nth_error (ob_mems o) k = Some t.
+Proof. exact memory_section_exact. Qed.
+Print Assumptions C30_memory_section_exact.
+
+(* ---- checker soundness ---- *)
+(* agreement is equality: on a case where the implementation agrees with the model, the observed returned ids,
+   panic flag and decoded output are the model's *)
+Theorem C30_agree_is_equality :
+  forall c : acase, agree c = true -> model_out c = (ao_rets c, ao_api_panic c, ao_enc c).
+Proof. exact agree_reflect. Qed.
+Print Assumptions C30_agree_is_equality.
+
+(* end to end, any history (no bound, any interleaving with the other ten operations): a segment added by add_data
+   is found in the *observed* output at the returned id with exactly the requested payload and kind *)
+Theorem C30_checker_sound_data :
+  forall (c : acase) o h1 d h2,
+  agree c = true -> ao_enc c = Some o -> ah_ops c = h1 ++ OAddData d :: h2 ->
+  exists r od, nth_error (ao_rets c) (length h1) = Some (Some r)
+               /\ nthN (ob_data o) r = Some od
+               /\ odseg_bytes od = dseg_bytes d /\ odseg_passive od = dseg_passive d.
+Proof. exact observed_data_exact. Qed.
+Print Assumptions C30_checker_sound_data.
+
+(* The remaining part of the property -- that the *index* carried by every reference to a returned id designates
+   the added item once imports are added or entities deleted (Wasm's index-space rule) -- rests on recalculate_ids,
+   whose closed form is C06_index_space_closed_form; it is false of the faithful model in the classes below and is
+   decided per history by CheckAdds.verdict30 on the real output. *)
+
+Definition i32g := mkGT 0 false false.
+(* D03: the export of global 0 names the newly imported global after add_imported_global *)
+Example C30_refuted_D03 :
+  let c := self_a [] [99] [(1, mkGP i32g (Some [IVal (VI32 5)]))] [] [] [mkEx 1 1 0 false] false
+             [OAddImpGlobal 2 i32g] [(SG, 0); (SG, 1)] in
+  agree c = true /\ dom_of (verdict30 c) = true /\ holds_of (verdict30 c) = false /\ known_D03 c = true.
+Proof. vm_compute. repeat split; reflexivity. Qed.
+(* D24: ModuleIterator::add_global then add_imported_global return the same id *)
+Example C30_refuted_D24 :
+  let c := self_a [] [99] [] [] [] [] false [OItAddGlobal 1 i32g [IVal (VI32 1)]; OAddImpGlobal 2 i32g] [(SG, 0)] in
+  agree c = true /\ ao_rets c = [Some 0; Some 0] /\ dom_of (verdict30 c) = true /\ holds_of (verdict30 c) = false /\ known_D24 c = true.
+Proof. vm_compute. repeat split; reflexivity. Qed.
+(* D06: an added imported global that is deleted again still occupies index 0: `global.get 0` of the local global
+   is emitted as `global.get 1` *)
+Example C30_refuted_D06 :
+  let c := self_a [] [99] [(1, mkGP i32g (Some [IVal (VI32 5)]))] [] [] [] false [OAddImpGlobal 2 i32g; ODelete SG 1] [(SG, 0)] in
+  agree c = true /\ dom_of (verdict30 c) = true /\ holds_of (verdict30 c) = false /\ known_D06 c = true.
+Proof. vm_compute. repeat split; reflexivity. Qed.
+(* class 300: a global requested with DataType::FuncRef (the parser's name for (ref func)) is emitted as funcref *)
+Example C30_refuted_300 :
+  let c := self_a [] [99] [] [] [] [] false [OAddGlobal 1 (mkGT 7 false false) [IRefFunc 0]] [(SG, 0)] in
+  agree c = true /\ dom_of (verdict30 c) = true /\ holds_of (verdict30 c) = false /\ known_300 c = true.
+Proof. vm_compute. repeat split; reflexivity. Qed.
+
+(* non-vacuity: fifteen operations (globals with a v128 of all ones, a signalling-NaN f32, ref.func and global.get
+   initialisers, a shared memory64 memory with custom page size, imported global / memory / function, active and
+   passive data, two exports, an initialiser replaced by a negative quiet NaN, a deletion, an export deletion)
+   with thirteen references: inside the domain and the property holds *)
+Example C30_nonvacuous :
+  let c := self_a [mkBI 1 1 (IDGlobal i32g); mkBI 2 2 (IDMem (mkMT false false 1 None None)); mkBI 0 3 IDNone] [4; 99]
+     [(5, mkGP (mkGT 2 true false) (Some [IVal (VF32 2143289344%Z)]))] [(6, mkMT false false 2 (Some 3) None)]
+     [DActive 0 [IGlobal 0] [1; 2]; DPassive []] [mkEx 1 0 1 false; mkEx 2 2 1 false] true
+     [OAddGlobal 10 (mkGT 4 false false) [IVal (VV128 340282366920938463463374607431768211455%Z)];
+      OAddImpGlobal 11 (mkGT 1 false false);
+      OAddGlobal 12 (mkGT 2 true true) [IVal (VF32 2139095041%Z)];
+      OAddMem 13 (mkMT true true 3 (Some 9) (Some 16));
+      OAddImpMem 14 (mkMT false false 0 None None);
+      OAddData (DActive 2 [IVal (VI32 (-7)%Z)] [255; 0; 7]);
+      OAddData (DPassive [9]);
+      OAddExport 2 7 2; OAddExport 0 8 2;
+      OModInit 1 [IVal (VF32 4290772992%Z)];
+      OAddGlobal 15 (mkGT 5 false false) [IRefFunc 2];
+      OAddGlobal 16 (mkGT 0 false false) [IGlobal 3];
+      ODelete SF 1; ODelExport 0; OAddImpFunc 17]
+     [(SG, 0); (SG, 1); (SG, 2); (SG, 3); (SG, 4); (SG, 5); (SG, 6); (SM, 0); (SM, 1); (SM, 2); (SM, 3); (SF, 2); (SF, 3)] in
+  agree c = true /\ dom_of (verdict30 c) = true /\ holds_of (verdict30 c) = true /\ known_of (verdict30 c) = []
+  /\ ao_rets c = [Some 2; Some 3; Some 4; Some 2; Some 3; Some 2; Some 3; None; None; None; Some 5; Some 6; None; None; Some 3]
+  /\ option_map ob_globals (ao_enc c)
+     = Some [mkOG (mkGT 2 true false) [CF32 4290772992%Z]; mkOG (mkGT 4 false false) [CV128 (-1)%Z];
+             mkOG (mkGT 2 true true) [CF32 2139095041%Z]; mkOG (mkGT 5 false false) [CRefFunc 2];
+             mkOG (mkGT 0 false false) [CGlobalGet 1]].
+Proof. vm_compute. repeat split; reflexivity. Qed.
+(* the hypotheses of the theorems are satisfiable: every instruction form is well-formed for in-range immediates *)
+Example C30_wf_nonvacuous :
+  forallb wf_instr [IVal (VI32 (-2147483648)%Z); IVal (VI64 9223372036854775807%Z); IVal (VF32 2139095041%Z);
+                    IVal (VF64 18444492273895866368%Z); IVal (VV128 340282366920938463463374607431768211455%Z);
+                    IGlobal 3; IRefFunc 7; IRefNull 0] = true.
+Proof. vm_compute. reflexivity. Qed.
